@@ -41,6 +41,27 @@ type cs struct {
 	Race     bool     `json:"race,omitempty"`
 	// U: unbounded exploration with sleep sets (every Mazurkiewicz trace, every pool answer) instead of P/E/F bounds
 	U bool `json:"unbounded,omitempty"`
+	// Split: a read of more than one label may return just the first 16 bytes (environment deviation)
+	Split bool `json:"split,omitempty"`
+	// Aff: session affinity in the default order (the threads of the running thread's session first), so
+	// that one deviation switches to the other session and lets it run until it cannot continue
+	Aff bool `json:"affinity,omitempty"`
+}
+
+func sessionOf(name string) string {
+	i := 1
+	for i < len(name) && name[i] >= '0' && name[i] <= '9' {
+		i++
+	}
+	return name[:i]
+}
+
+func (k cs) opts() csched.Options {
+	o := csched.Options{}
+	if k.Aff {
+		o.Affinity = func(running, cand string) bool { return sessionOf(running) == sessionOf(cand) }
+	}
+	return o
 }
 
 var circuits = []circgen.Desc{
@@ -331,6 +352,15 @@ func system(k cs, w *world) func() {
 	return func() {
 		w.c = circuits[k.Circ].Build()
 		vnet.Reset()
+		vnet.ReadAlts = nil
+		if k.Split {
+			vnet.ReadAlts = func(nread int64, n, max int) []int {
+				if n > 16 {
+					return []int{n, 16}
+				}
+				return nil
+			}
+		}
 		w.hobj = csched.NewObj(nil)
 		for i, p := range k.Programs {
 			csched.GoNamed(fmt.Sprintf("T%d", i), w.thread(i, p))
@@ -363,14 +393,15 @@ func runCaseSharded(ctx *runner.Ctx, k cs, shard, nshards int) {
 	}
 	if k.Prefix != nil {
 		w := &world{}
-		r := csched.Run(k.Prefix, csched.Options{}, system(k, w))
+		r := csched.Run(k.Prefix, k.opts(), system(k, w))
 		ctx.Eval(1)
 		if kind, what := judge(w, r); kind != "" {
 			report(k, kind, what, r)
 		}
 		return
 	}
-	x := &csched.Explorer{PBound: k.P, EBound: k.E, FBound: k.F, Shard: shard, NShards: nshards, Opts: csched.Options{HashStates: true}, Stop: ctx.Expired}
+	x := &csched.Explorer{PBound: k.P, EBound: k.E, FBound: k.F, Shard: shard, NShards: nshards, Opts: k.opts(), Stop: ctx.Expired}
+	x.Opts.HashStates = true
 	var w *world
 	explore := x.Explore
 	if k.U {
@@ -489,6 +520,11 @@ func work(ctx *runner.Ctx) {
 				continue
 			}
 			cases = append(cases, cs{Circ: ci, Programs: ps, P: p, E: e, F: f})
+			if ps[0] == "S" && (ps[1] == "S" || !ctx.Quick()) {
+				// the sessions as blocks: one deviation moves to the other session for as long as it can run,
+				// and a read may stop at a label boundary
+				cases = append(cases, cs{Circ: ci, Programs: ps, P: p, E: e, F: f, Split: true, Aff: true})
+			}
 		}
 	}
 	for ci := range circuits[:3] {
